@@ -41,6 +41,8 @@ def P2(m, R):
     R.check(regs == {'<'}, f, outer, 'scan runs while %s < len(%s)' % (cur, s), 'scan runs while %s' % short(t), construct='scan loop')
     si = '%s[%s]' % (s, cur)
     text_attr = None
+    from ..shapes import local_aliases, canon
+    ali = local_aliases(f)
     cfg = CFG(f.node, f.body)
     head = cfg.loop_of[outer]
 
@@ -65,6 +67,8 @@ def P2(m, R):
                 ev += (('store', tg, st.lineno),)
             elif isinstance(st.value, ast.Call) and call_name(st.value) == 'AnsiControlSequence':
                 ev += (('record', tg, tuple(norm(a) for a in st.value.args), st.lineno),)
+            elif any(isinstance(x, ast.Call) and call_name(x) == 'AnsiControlSequence' for x in ast.walk(st.value)):
+                ev += (('record', tg, (), st.lineno),)
             elif isinstance(st.value, ast.List) and len(st.value.elts) == 1 and isinstance(st.targets[0], ast.Subscript):
                 ev += (('keep', norm(st.targets[0].value), norm(st.targets[0].slice), norm(st.value.elts[0]), st.lineno),)
             elif tg == cur:
@@ -118,10 +122,10 @@ def P2(m, R):
         if not _fold_is(F, r, '\x1b['):
             l, r = r, l
         if _fold_is(F, r, '\x1b[') and isinstance(l, ast.Subscript) and isinstance(l.slice, ast.Slice) and norm(l.value) == s and \
-                norm(l.slice.lower) == cur and norm(l.slice.upper) == '%s + len(%s)' % (cur, norm(r)):
+                norm(l.slice.lower) == cur and canon(l.slice.upper, ali) == '%s + len(%s)' % (cur, norm(r)):
             ok = True
             first = csi_if.body[0]
-            ok = isinstance(first, ast.AugAssign) and norm(first.target) == cur and norm(first.value) == 'len(%s)' % norm(r)
+            ok = isinstance(first, ast.AugAssign) and norm(first.target) == cur and canon(first.value, ali) == 'len(%s)' % norm(r)
     R.check(ok, f, csi_if or outer, 'a sequence starts exactly where s[i:i+len(CSI)] == CSI, and the cursor then skips len(CSI)', construct=cons)
     if csi_if is None:
         return
@@ -194,18 +198,36 @@ def P2(m, R):
             problems.append('recorded as AnsiControlSequence(%s), expected (%s, %s)' % (', '.join(norm(a) for a in rec[0].args), param_acc, term_var))
         arm = acc_if.body if any(rec[0] in ast.walk(x) for x in acc_if.body) else acc_if.orelse
         other = acc_if.orelse if arm is acc_if.body else acc_if.body
-        keyv = None
+        # where the record goes: under key len(text so far), appended to (or starting) the list of that key
+        arm_al = dict(ali)
         for x in arm:
-            if isinstance(x, ast.Assign) and text_attr and norm(x.value) == 'len(%s)' % text_attr:
-                keyv = norm(x.targets[0])
-        if keyv is None:
-            problems.append('the record key is not len(text so far)')
+            if isinstance(x, ast.Assign) and isinstance(x.targets[0], ast.Name):
+                arm_al[x.targets[0].id] = x.value
+        keys_used = set()
+        appended = 0
+        und = False
+        for x in ast.walk(ast.Module(body=arm, type_ignores=[])):
+            if isinstance(x, ast.Call) and call_name(x) == 'append' and isinstance(x.func, ast.Attribute):
+                recv = x.func.value
+                if isinstance(recv, ast.Subscript):
+                    keys_used.add(canon(recv.slice, arm_al))
+                    appended += 1
+                elif isinstance(recv, ast.Call) and call_name(recv) == 'setdefault' and len(recv.args) == 2 and isinstance(recv.args[1], ast.List) and not recv.args[1].elts:
+                    keys_used.add(canon(recv.args[0], arm_al))
+                    appended += 2      # append-or-create in one
+                else:
+                    und = True
+            elif isinstance(x, ast.Assign) and isinstance(x.targets[0], ast.Subscript) and isinstance(x.value, ast.List) and len(x.value.elts) == 1:
+                keys_used.add(canon(x.targets[0].slice, arm_al))
+                appended += 1
+        if und or not text_attr:
+            R.undecided(f, acc_if, 'how the recorded sequence is stored is not recognised', construct=cons)
         else:
-            keeps = [x for x in ast.walk(ast.Module(body=arm, type_ignores=[])) if (isinstance(x, ast.Call) and call_name(x) == 'append') or
-                     (isinstance(x, ast.Assign) and isinstance(x.targets[0], ast.Subscript) and isinstance(x.value, ast.List))]
-            if len(keeps) != 2 or not all(keyv in norm(k) for k in keeps):
-                problems.append('the sequence is not appended to / started as the list under key %s' % keyv)
-        R.check(not problems, f, acc_if, 'recorded with (parameters, final byte) under key len(text so far), in order', '; '.join(problems), construct=cons)
+            if keys_used != {'len(%s)' % text_attr}:
+                problems.append('the record key is %s, expected len(text so far)' % sorted(keys_used))
+            if appended != 2:
+                problems.append('the sequence is not appended to an existing list / started as a new list under its key')
+            R.check(not problems, f, acc_if, 'recorded with (parameters, final byte) under key len(text so far), in order', '; '.join(problems), construct=cons)
         cons = 'put-back arm'
         pb = [x for x in other if isinstance(x, ast.AugAssign) and norm(x.target) == text_attr]
         okpb = False
@@ -282,7 +304,10 @@ def F1(m, R):
         R.undecided(f, f.node, 'parameter scan not found', construct=cons)
     else:
         s = f.own_params()[0]
-        ords = {norm(x) for x in ast.walk(inner.test) if isinstance(x, ast.Call) and call_name(x) == 'ord'}
+        from ..shapes import local_aliases
+        from ..shapes import subst as _subst
+        inner_test = _subst(inner.test, local_aliases(f))
+        ords = {norm(x) for x in ast.walk(inner_test) if isinstance(x, ast.Call) and call_name(x) == 'ord'}
         if len(ords) != 1:
             R.undecided(f, inner, 'scan test %s' % short(inner.test), construct=cons)
         else:
@@ -293,10 +318,10 @@ def F1(m, R):
             for name, rank in (('<lo', 0), ('=lo', 1), ('inside', 2), ('=hi', 3), ('>hi', 4)):
                 val = merge_valuations(order_valuation({x: rank, lo: 1, hi: 3}),
                                        flag_valuation({}, {'%s < len(%s)' % (cur.group(1) if cur else 'i', s): True}))
-                tt[name] = eval_guard(inner.test, val)
+                tt[name] = eval_guard(inner_test, val)
             want = {'<lo': True, '=lo': False, 'inside': False, '=hi': False, '>hi': True}
             if any(v is None for v in tt.values()):
-                R.undecided(f, inner, 'scan test %s not decided' % short(inner.test), construct=cons)
+                R.undecided(f, inner, 'scan test %s not decided' % short(inner_test), construct=cons)
                 tt = want
             R.check(tt == want, f, inner, 'the parameter scan continues exactly outside [0x40,0x7E]',
                     'the parameter scan continues in regions %s; a final byte is exactly lo..hi inclusive' % sorted(k for k, v in tt.items() if v), construct=cons)
@@ -334,17 +359,27 @@ def P11(m, R):
         R.viol(f, c, 'settings_to_dict is called without the previous state: every sequence is read as if the terminal were in its default state',
                construct=cons)
     else:
-        # old must be assigned from `new` unconditionally later in the same loop body, and be {} before the loops
+        # the carried state C: either the argument itself is replaced by the result, or the argument was just taken from C and the
+        # result goes (back) into C -- on every path of the iteration; C starts as the empty state
         body = lp.body
         later = body[body.index(c) + 1:] if c in body else []
-        threaded = any(isinstance(s, ast.Assign) and norm(s.targets[0]) == old and norm(s.value) == new for s in later)
-        init = [s for s in f.body if isinstance(s, (ast.Assign, ast.AnnAssign)) and norm(s.targets[0] if isinstance(s, ast.Assign) else s.target) == old]
+        earlier = body[:body.index(c)] if c in body else []
+        carried = None
+        if new == old or any(isinstance(s_, ast.Assign) and norm(s_.targets[0]) == old and norm(s_.value) == new for s_ in later):
+            carried = old
+        else:
+            src = next((norm(s_.value) for s_ in reversed(earlier) if isinstance(s_, ast.Assign) and norm(s_.targets[0]) == old and isinstance(s_.value, ast.Name)), None)
+            if src is not None and (new == src or any(isinstance(s_, ast.Assign) and norm(s_.targets[0]) == src and norm(s_.value) == new for s_ in later)):
+                carried = src
         problems = []
-        if not threaded:
-            problems.append('the state %s passed in is not replaced by the call\'s result %s on every path of the iteration' % (old, new))
-        if not init or not (isinstance(init[0].value, ast.Dict) and not init[0].value.keys):
-            problems.append('%s does not start as the empty state' % old)
-        R.check(not problems, f, c, '%s = settings_to_dict(codes, %s); ...; %s = %s' % (new, old, old, new), '; '.join(problems), construct=cons)
+        if carried is None:
+            problems.append('the state %s passed in is not the loop-carried state replaced by the call\'s result %s on every path of the iteration' % (old, new))
+        else:
+            init = [s_ for s_ in ast.walk(f.node) if isinstance(s_, (ast.Assign, ast.AnnAssign)) and
+                    norm(s_.targets[0] if isinstance(s_, ast.Assign) else s_.target) == carried and s_ not in list(ast.walk(lp))]
+            if not init or not (isinstance(init[0].value, ast.Dict) and not init[0].value.keys):
+                problems.append('%s does not start as the empty state' % carried)
+        R.check(not problems, f, c, 'the reduction starts from the loop-carried state and its result becomes that state', '; '.join(problems), construct=cons)
     R.check(norm(bound.get(std.params[0])) in {norm(s.targets[0]) for s in f.walk() if isinstance(s, ast.Assign) and call_name(s.value) == 'parse_graphic_sequence'},
             f, c, 'the reduced list is the parsed sequence', construct='reduced list')
     pc = [n for n in f.walk() if isinstance(n, ast.Call) and call_name(n) == 'parse_graphic_sequence']
@@ -381,24 +416,58 @@ def _status_valuation(K, OLD, NEW, V, status):
 @rule('F6', 'dict-diff: per key status {only-old, only-new, both-same, both-different} the state diff of set_ansi_str and of the '
             'to_str optimiser decide completely', floor=8)
 def F6(m, R):
-    # ---- set_ansi_str
+    # ---- set_ansi_str (the diff may live in a private helper)
+    from ..shapes import with_helpers
     f = m.fn('AnsiString.set_ansi_str')
-    loops = [n for n in f.walk() if isinstance(n, ast.For) and call_name(n.iter) == 'items' and isinstance(n.target, ast.Tuple)]
     calls = {call_name(n): n for n in f.walk() if isinstance(n, ast.Call) and call_name(n) in ('remove_formatting', 'apply_formatting')}
-    if len(loops) < 3 or len(calls) != 2:
-        raise AnalysisError('anchor vanished: the diff loops of set_ansi_str')
+    if len(calls) != 2:
+        raise AnalysisError('anchor vanished: remove / apply calls of set_ansi_str')
     rem_list = norm(calls['remove_formatting'].args[0])
     app_list = norm(calls['apply_formatting'].args[0])
-    diff_loops = [lp for lp in loops if any(call_name(x) == 'append' for x in ast.walk(lp)) and not any(isinstance(x, ast.For) and x is not lp for x in ast.walk(lp))]
-    # identify NEW / OLD dict names from the loop iterables
-    names = [norm(lp.iter.func.value) for lp in diff_loops]
-    std_call = next(n for n in f.walk() if isinstance(n, ast.Assign) and call_name(n.value) == 'settings_to_dict')
-    NEW = norm(std_call.targets[0])
-    olds = [n for n in names if n != NEW]
-    if not olds:
-        raise AnalysisError('diff loops of set_ansi_str do not iterate the old state')
-    OLD = olds[0]
-    for status in ('only-new', 'only-old', 'both-same', 'both-diff'):
+    std_call = next((n for n in f.walk() if isinstance(n, ast.Assign) and call_name(n.value) == 'settings_to_dict'), None)
+    if std_call is None:
+        raise AnalysisError('anchor vanished: settings_to_dict call of set_ansi_str')
+    host = None
+    for g in with_helpers(m, f, 1):
+        lps = [n for n in g.walk() if isinstance(n, ast.For) and call_name(n.iter) == 'items' and isinstance(n.target, ast.Tuple) and
+               any(call_name(x) == 'append' for x in ast.walk(n) if isinstance(x, ast.Call)) and not any(isinstance(x, ast.For) and x is not n for x in ast.walk(n))]
+        if len(lps) >= 2:
+            host, diff_loops = g, lps
+            break
+    if host is None:
+        R.undecided(f, f.node, 'the old/new state diff of set_ansi_str (two loops over .items() with appends) was not found in it or its helpers', construct='set_ansi_str diff')
+        diff_loops = []
+    loops = diff_loops
+    if host is not None:
+        names = [norm(lp.iter.func.value) for lp in diff_loops]
+        if host is f:
+            NEW = norm(std_call.targets[0])
+            olds = [n for n in names if n != NEW]
+            OLD = olds[0] if olds else None
+            to_rem, to_app = rem_list, app_list
+        else:
+            # helper(old, new) -> (to_remove, to_apply): map through the call in set_ansi_str
+            hc = next((n for n in f.walk() if isinstance(n, ast.Assign) and call_name(n.value) == host.name), None)
+            OLD = NEW = to_rem = to_app = None
+            if hc is not None and isinstance(hc.targets[0], ast.Tuple) and len(hc.targets[0].elts) == 2:
+                b_, _ = bind_call(hc.value, host)
+                newv = norm(std_call.targets[0])
+                stdb, _ = bind_call(std_call.value, m.fn('settings_to_dict'))
+                oldv = norm(stdb.get(m.fn('settings_to_dict').params[1]))
+                for p_, a_ in b_.items():
+                    if norm(a_) == newv:
+                        NEW = p_
+                    elif norm(a_) == oldv:
+                        OLD = p_
+                ret = next((n for n in host.walk() if isinstance(n, ast.Return) and isinstance(n.value, ast.Tuple) and len(n.value.elts) == 2), None)
+                if ret is not None:
+                    outs = [norm(x) for x in hc.targets[0].elts]
+                    m_ = dict(zip(outs, [norm(x) for x in ret.value.elts]))
+                    to_rem, to_app = m_.get(rem_list), m_.get(app_list)
+        if None in (OLD, NEW, to_rem, to_app) or set(names) != {OLD, NEW}:
+            R.undecided(host, host.node, 'roles of the two states / two lists of the diff not recognised', construct='set_ansi_str diff')
+            host = None
+    for status in (('only-new', 'only-old', 'both-same', 'both-diff') if host is not None else ()):
         cons = 'set_ansi_str diff %s' % status
         events = []
         sub_old = []
@@ -417,7 +486,7 @@ def F6(m, R):
                         lst = norm(st.value.func.value)
                         a = norm(st.value.args[0])
                         which = 'old' if a in ('%s[%s]' % (OLD, K),) or (src == OLD and a == V) else 'new' if (a == '%s[%s]' % (NEW, K) or (src == NEW and a == V)) else a
-                        events.append(('remove' if lst == rem_list else 'apply' if lst == app_list else lst, which))
+                        events.append(('remove' if lst == to_rem else 'apply' if lst == to_app else lst, which))
                     for x in ast.walk(st):
                         if isinstance(x, ast.Subscript) and norm(x.value) == OLD:
                             sub_old.append(st)
@@ -429,7 +498,7 @@ def F6(m, R):
                                 sub_old.append(a)
                 run_block(lp.body, val, visit, vt)
         except Undecided as e:
-            R.undecided(f, diff_loops[0], str(e), construct=cons)
+            R.undecided(host, diff_loops[0], str(e), construct=cons)
             continue
         want = {'only-new': {('apply', 'new')}, 'only-old': {('remove', 'old')}, 'both-same': set(),
                 'both-diff': {('remove', 'old'), ('apply', 'new')}}[status]
@@ -438,7 +507,8 @@ def F6(m, R):
             problems.append('does %s, required %s' % (sorted(events), sorted(want)))
         if status == 'only-new' and sub_old:
             problems.append('subscripts the old state with a key it does not have (KeyError)')
-        R.check(not problems, f, diff_loops[0], 'key %s: %s' % (status, sorted(want) or 'nothing'), '; '.join(problems), construct=cons)
+        R.check(not problems, host, diff_loops[0], 'key %s: %s' % (status, sorted(want) or 'nothing'), '; '.join(problems), construct=cons)
+    loops = [n for n in f.walk() if isinstance(n, ast.For) and call_name(n.iter) == 'items' and isinstance(n.target, ast.Tuple)]
     # the lists reach remove / apply with the point's key
     for nm, lst in (('remove_formatting', rem_list), ('apply_formatting', app_list)):
         c = calls[nm]
